@@ -6,7 +6,7 @@
 #ifdef VERIF_NATIVE
 /* native_shim.h defines nondet_* reading the recorded sequence */
 _Bool nondet_bool(void); size_t nondet_size(void); unsigned char nondet_uchar(void); int nondet_int(void);
-unsigned short nondet_u16(void); unsigned int nondet_uint(void); long long nondet_i64(void);
+unsigned short nondet_u16(void); unsigned int nondet_uint(void); long long nondet_i64(void); unsigned char nondet_u8(void); unsigned int nondet_u32(void);
 #else
 _Bool __VERIFIER_nondet__Bool(void); size_t __VERIFIER_nondet_size_t(void); unsigned char __VERIFIER_nondet_uchar(void);
 int __VERIFIER_nondet_int(void); unsigned short __VERIFIER_nondet_ushort(void); unsigned int __VERIFIER_nondet_uint(void);
@@ -18,5 +18,7 @@ static int            nondet_int(void)   { int v = __VERIFIER_nondet_int(); retu
 static unsigned short nondet_u16(void)   { unsigned short v = __VERIFIER_nondet_ushort(); return v; }
 static unsigned int   nondet_uint(void)  { unsigned int v = __VERIFIER_nondet_uint(); return v; }
 static long long      nondet_i64(void)   { long long v = __VERIFIER_nondet_longlong(); return v; }
+static unsigned char  nondet_u8(void)    { unsigned char v = __VERIFIER_nondet_uchar(); return v; }
+static unsigned int   nondet_u32(void)   { unsigned int v = __VERIFIER_nondet_uint(); return v; }
 #endif
 #endif
